@@ -9,12 +9,15 @@ package c01
 
 import (
 	"bytes"
+	"crypto/sha256"
 	"fmt"
 	"math/big"
 	"math/rand/v2"
+	"strings"
 	"sync"
 	"testing"
 
+	"github.com/consensys/gnark/backend"
 	"github.com/consensys/gnark/backend/groth16"
 	"github.com/consensys/gnark/backend/witness"
 	"github.com/consensys/gnark/constraint"
@@ -22,6 +25,7 @@ import (
 	"github.com/consensys/gnark/frontend/cs/r1cs"
 
 	"github.com/consensys/gnark/verifharness/curves"
+	"github.com/consensys/gnark/verifharness/internal/adversary"
 	"github.com/consensys/gnark/verifharness/internal/ceval"
 	"github.com/consensys/gnark/verifharness/internal/circuits"
 	"github.com/consensys/gnark/verifharness/internal/cvapi"
@@ -285,6 +289,19 @@ func runCircuit(r *vcore.Run, ops *cvapi.Ops, idx int) {
 		c.expectReject("single-edit", e.Name, e.Obj.(groth16.Proof), g.pub)
 	}
 
+	// ---- family 2b: elements moved out of the prime-order subgroup by a small-order point
+	if te, ok := ops.Ext["G16TorsionEdits"].(func(any) []cvapi.Edit); ok {
+		for _, e := range te(g.proof) {
+			if !e.Changed {
+				continue
+			}
+			if nbCommit == 0 && strings.HasPrefix(e.Name, "CommitmentPok") {
+				continue
+			}
+			c.expectReject("torsion-edit", e.Name, e.Obj.(groth16.Proof), g.pub)
+		}
+	}
+
 	// ---- family 3: commitment-list edits
 	for _, e := range ops.G16ListEdits(g.proof, donors) {
 		if !e.Changed {
@@ -303,6 +320,26 @@ func runCircuit(r *vcore.Run, ops *cvapi.Ops, idx int) {
 		forged := ops.G16Surplus(g.proof, vk, g.pub, np).(groth16.Proof)
 		c.expectReject("surplus-commitment-forgery", fmt.Sprintf("pub[%d]+7,append(sum(x-x')K)", j), forged, np)
 		break
+	}
+
+	// ---- transcript binding: every commitment and committed public input reaches the hash-to-field function
+	if nbCommit > 0 {
+		rec := adversary.NewRecordingHash(sha256.New())
+		pw, _ := g.full.Public()
+		p2, err := groth16.Prove(ccs, pk, g.full, backend.WithProverHashToFieldFunction(sha256.New()))
+		if err == nil && groth16.Verify(p2, vk, pw, backend.WithVerifierHashToFieldFunction(rec)) == nil {
+			for _, it := range ops.G16BoundItems(p2, vk, g.pub) {
+				r.Eval(label+"|hash-binding|"+it.Name, true)
+				if !bytes.Contains(rec.Stream, it.Bytes) {
+					r.Violation("not-bound-into-commitment-hash/"+editKind(it.Name), it.Name+" is never written to the verifier's hash-to-field function",
+						map[string]any{"curve": ops.Name, "circuit": spec.String(), "item": it.Name})
+				} else {
+					r.Count("commitment-hash.items-bound", 1)
+				}
+			}
+		} else {
+			r.Inconclusive("recording-hash-run")
+		}
 	}
 
 	// ---- family 4: dishonest prover (PostSolve hook)
